@@ -46,6 +46,13 @@ pub fn encode(mut flags: Flags, src: &[u8]) -> io::Result<Vec<u8>> {
         }
     }
 
+    // The entropy coders need at least one symbol (e.g., empty input, an empty stripe, or a
+    // single-symbol input bit packed to zero bytes).
+    if src.is_empty() {
+        flags.insert(Flags::CAT);
+        dst[0] = u8::from(flags);
+    }
+
     if flags.is_uncompressed() {
         dst.write_all(&src)?;
     } else if flags.uses_external_codec() {
